@@ -307,10 +307,10 @@ def serve (env : Env) (w2 : MTWorker) (inval : List Nat) (c db : Nat) (cs' : CS)
         match out with
         | .resultUnpicklable => (w3, .serErr, some used, true)
         | .ok | .okNoState => (recorded, .ok, some used, true)
-        | .raise => (recorded, .compErr, some used, true)
+        | .raise | .requestUnreadable => (recorded, .compErr, some used, true)
         | .statePickleFail => (recorded, .statePickleErr, some used, true)
 
-def stepMT (env : Env) (st : MTState) (q : MReq) : MTState × MObs :=
+def stepMTRun (env : Env) (st : MTState) (q : MReq) : MTState × MObs :=
   let r := q.r
   let p := preargs (st.bel q.c) r
   let cb := !p.isEmpty
@@ -327,6 +327,18 @@ def stepMT (env : Env) (st : MTState) (q : MReq) : MTState × MObs :=
       let sv := serve env pr.1 pr.2.2.2 q.c r.db cs' pr.2.2.1 r.out
       (ack1 (updWk st1 r.w sv.1) q.c r.db p sv.2.2.2,
        ⟨p, cb, updated, some pr.2.1, pr.2.2.1, pr.2.2.2, sv.2.1, sv.2.2.1⟩)
+
+/-- The compiler server cannot unpickle the request (`handle_client_call`:
+    `pickle.loads(msg)` — e.g. a compile argument): nothing is stored, no worker is
+    involved, the reply is status 1 with that ordinary exception — and the client's
+    `BaseWorker.call` runs the acknowledgement callback. -/
+def stepMTLost (st : MTState) (q : MReq) : MTState × MObs :=
+  let p := preargs (st.bel q.c) q.r
+  (ack1 { st with clock := st.clock + 1 } q.c q.r.db p true,
+   ⟨p, !p.isEmpty, false, none, none, [], .unpickleErr, none⟩)
+
+def stepMT (env : Env) (st : MTState) (q : MReq) : MTState × MObs :=
+  if q.r.out = .requestUnreadable then stepMTLost st q else stepMTRun env st q
 
 def execMT (env : Env) (st : MTState) : List MReq → MTState
   | [] => st
